@@ -147,7 +147,8 @@ structure St where
   -- volatile ----------------------------------------------------------------------------
   phase : Phase
   seq : Option Int              -- `dataFamily.seq[leader]`
-  memMut : List Row             -- mutable memory database
+  memMut : List Row             -- mutable memory database: rows of THIS leader's log entries
+  foreignMem : Nat              -- ... and how many rows of other leaders' logs it holds (the family is shared)
   frozen : Option Frozen
   inflight : Option InFlight
 deriving Repr
@@ -155,7 +156,7 @@ deriving Repr
 def St.init : St :=
   { log := [], gcLow := 0, consumed := -1, groupAck := -1, walGone := false, files := [], stored := none,
     metric := Dict.empty, tagv := Dict.empty, index := Dict.empty,
-    phase := .running, seq := none, memMut := [], frozen := none, inflight := none }
+    phase := .running, seq := none, memMut := [], foreignMem := 0, frozen := none, inflight := none }
 
 /-- `-1` for "no sequence", as in the code's initial values -/
 def ov (o : Option Int) : Int := o.getD (-1)
@@ -164,6 +165,7 @@ def St.appended (st : St) : Int := (st.log.length : Int) - 1
 
 inductive Ev
   | append (m t : Nat)   -- partition.WriteLog / queue.Put
+  | foreignWrite (m t : Nat)  -- the local replicator of ANOTHER leader's partition wrote a row into the shared family
   | appendBad            -- a log entry whose payload is not a snappy block (Replica: Uncompress fails)
   | applyBegin           -- partition.replica: Consume, GetMessage; Replica: ValidateSequence
   | applyTake            -- WriteRows: GetOrCreateMemoryDatabase (family mutex)
@@ -287,11 +289,13 @@ def closeMark (fl : InFlight) : InFlight :=
   if fl.toFrozen && !fl.written then { fl with closed := true } else fl
 
 def doFreeze (st : St) : St :=
-  match st.frozen, st.memMut with
-  | none, r :: rs =>
-    { st with frozen := some ⟨r :: rs, st.seq, false⟩, memMut := [],
+  match st.frozen with
+  | none =>
+    -- `mutableMemDB.NumOfSeries() == 0` (no row of any leader): nothing to flush
+    if st.memMut.isEmpty && st.foreignMem == 0 then st else
+    { st with frozen := some ⟨st.memMut, st.seq, false⟩, memMut := [], foreignMem := 0,
               inflight := st.inflight.map freezeMark }
-  | _, _ => st
+  | some _ => st
 
 /-- `FlushFamilyTo` first waits for writers of this memdb (`writeCondition.Wait`) -/
 def writerPending (st : St) : Bool :=
@@ -332,7 +336,7 @@ def doWalExpire (st : St) : St :=
   if st.inflight.isNone ∧ st.appended ≤ st.groupAck then { st with walGone := true } else st
 
 def doCrash (st : St) : St :=
-  { st with phase := .down, seq := none, memMut := [], frozen := none, inflight := none,
+  { st with phase := .down, seq := none, memMut := [], foreignMem := 0, frozen := none, inflight := none,
             metric := st.metric.crash, tagv := st.tagv.crash, index := st.index.crash }
 
 /-- `newDataFamily`: `seq = persistSeq =` sequences of the recovered version;
@@ -354,6 +358,7 @@ def step (cfg : Cfg) (st : St) (e : Ev) : St :=
   | .recover => if st.phase = .down then doRecover st else st
   | .rewind => if st.phase = .opened then doRewind st else st
   | .append m t => whenRunning st (if st.walGone then st else doAppend st m t)
+  | .foreignWrite m t => whenRunning st (addNames { st with foreignMem := st.foreignMem + 1 } m t)
   | .appendBad => whenRunning st (if st.walGone then st else doAppendBad st)
   | .applyBegin => whenRunning st (if st.walGone then st else doApplyBegin cfg st)
   | .applyTake => whenRunning st (doApplyTake cfg st)
@@ -394,5 +399,51 @@ def flushRound : List Ev :=
 
 /-- the event order of one `localReplicator.Replica` -/
 def applyRound : List Ev := [.applyBegin, .applyTake, .applyAcquire, .applyWrite, .applyCommit]
+
+/-! ### node level: one lane per leader
+
+`dataFamily.seq` / `persistSeq` / the manifest's sequences are maps leader -> sequence, and every
+leader whose writes reach this node (its own as leader, other nodes' as follower) has its own log
+partition `<shard>/<family>/<leader>` with its own local replicator and consumer group. A node is a
+list of lanes keyed by the leader id; each lane is the state `St` seen from that leader: its log, its
+consumer group, its entry of the three sequence maps, the rows of ITS entries in the shared memory
+databases / data files, a count of the other leaders' rows, and its own copy of the shared
+dictionaries (kept identical by construction). -/
+
+abbrev Node := List (Nat × St)
+
+def Node.init (leaders : List Nat) : Node := leaders.map (fun l => (l, St.init))
+
+def Node.lane? (n : Node) (l : Nat) : Option St := (n.find? (fun p => p.1 == l)).map (·.2)
+
+inductive NEv
+  /-- an event of leader `l`'s partition / replicator: append, appendBad, the steps of Replica, logGC, walExpire -/
+  | lane (l : Nat) (e : Ev)
+  /-- an event of the shared family / database / process: dictionary flush steps, freeze, dataCommit,
+  ackCallback (the callbacks of all leaders), crash, recover, rewind -/
+  | shared (e : Ev)
+deriving Repr
+
+/-- what the other lanes see of a lane event: a row written by leader `l` is a foreign row for them -/
+def inducedEv (src : St) (e : Ev) : Option Ev :=
+  match e, src.inflight with
+  | .applyWrite, some fl =>
+    if fl.acquired && !fl.written && !fl.closed && src.phase == .running
+    then some (.foreignWrite fl.metric fl.tagv) else none
+  | _, _ => none
+
+def stepNode (cfg : Cfg) (n : Node) : NEv → Node
+  | .shared e => n.map (fun p => (p.1, step cfg p.2 e))
+  | .lane l e =>
+    match n.lane? l with
+    | none => n
+    | some src =>
+      n.map (fun p =>
+        if p.1 = l then (p.1, step cfg p.2 e)
+        else match inducedEv src e with
+          | some f => (p.1, step cfg p.2 f)
+          | none => p)
+
+def runNode (cfg : Cfg) (n : Node) (nevs : List NEv) : Node := nevs.foldl (stepNode cfg) n
 
 end LinVerif.NodeRecovery
